@@ -662,6 +662,19 @@ theorem C04_cex_udt_struct_keeps_stale_field :
       unmarshalUdtStruct, zeroOf, zeroOfs, ValueSpec.shorter, r1, l1, us_int, d5]
   · simp [unmarshalInto, cexUdt, cexUdtStruct, cexUdtShort, intoBase, dataBytes, udtInto, partsOf, fit, ValueSpec.shorter, r1, l1, b5]
 
+open RowsReuse Marshal in
+/-- the excluded condition on structs is exactly "some field of the struct is not written": the full value (a, b) into
+    the struct {a, b} is INSIDE `C04_rows_independent_partial` (whatever the struct held), the short value (a) of
+    KF-C04-7 is outside; a null value resets the struct and is inside; `*[3]int` for a list<int> column is inside,
+    `*[3][]byte` for a list<blob> column is outside (an empty element: KF-C04-6) -/
+theorem C04_struct_excluded_exactly :
+    sensitive (some cexUdt) cexUdtStruct (some cexUdtFull) = false ∧
+    sensitive (some cexUdt) cexUdtStruct (some cexUdtShort) = true ∧
+    sensitive (some cexUdt) cexUdtStruct none = false ∧
+    (∀ d, sensitive (some (.list .int)) (.array 3 (.int .int false)) d = false) ∧
+    (∀ d, sensitive (some (.list .blob)) (.array 3 (.bytes false)) d = true) := by
+  refine ⟨by decide, by decide, by decide, fun _ => rfl, fun _ => rfl⟩
+
 /-! ## 6. non-vacuity -/
 
 /-- a v4 ERROR Unavailable with tracing, warnings and custom payload is well-formed -/
